@@ -35,10 +35,11 @@ TRUSTED_BASE = [
     "Coq 8.16.1 kernel (vm_compute in Examples, refutation witnesses and the correspondence evaluation)",
     "Print Assumptions: Closed under the global context for every C17 theorem (no axioms)",
     "translator/gen_nglob.py (shape-matched constants of convert_nglob_to_regex, RE_WILD_PARTS, measured re.escape; "
-    "structural fingerprints of convert_nglob_to_regex, iter_wildcard_names, has_anonymous_wildcards, "
+    "post-processing block of convert_nglob_to_regex compared verbatim; structural fingerprints of "
+    "iter_wildcard_names, has_anonymous_wildcards, "
     "NamedGlob._default_*, NamedGlob.glob)",
-    "translator/gen_nglob_code.py and translator/gen_nglob_batch.py (statement-level translations; what they emit is "
-    "proved equal to the model in proofs/NglobCodeTie.v and proofs/NglobBatchTie.v) and the reading of the Python "
+    "translator/gen_nglob_code.py, gen_nglob_regex.py and gen_nglob_batch.py (statement-level translations; what they "
+    "emit is proved equal to the model in proofs/NglobCodeTie.v, NglobRegexTie.v and NglobBatchTie.v) and the reading of the Python "
     "builtins in model/NglobPy.v / model/NglobBatch.v (set.add, set.discard, dict operations)",
     "harness/c17_batch.py: the queue items an operation on the tree produces are written down the way "
     "AsyncInotifyWrapper.change_loop produces them (that translation is property C14)",
